@@ -12,8 +12,13 @@ require (
 )
 
 require (
-	github.com/google/go-cmp v0.6.0
+	golang.org/x/mod v0.22.0 // indirect
+	golang.org/x/sync v0.10.0 // indirect
+)
+
+require (
 	golang.org/x/exp v0.0.0-20240409090435-93d18d7e34b8 // indirect
+	golang.org/x/tools v0.29.0
 	seehuhn.de/go/dijkstra v0.9.3 // indirect
 )
 
